@@ -107,9 +107,40 @@ theorem create_layers_within (bs : Bytes) (budget : Option Nat) (maxSeek : Nat) 
     (h : ggufLayers bs budget Guards.tree maxSeek = some (.ok out)) : Within bs.length out :=
   ggufLayers_within bs budget Guards.tree maxSeek out h
 
+/-- **The whole metadata side of create** (`ggufLayers` + every typed accessor `detectChatTemplate` and
+    `createModel` call on the decoded key/values: ChatTemplate, Architecture, Kind, FileType, ParameterCount):
+    terminates and is safe on every byte string; with type mismatches treated as missing keys the accessors
+    never fail, so it is `ggufLayers`. -/
+theorem create_upload_terminates_tree (bs : Bytes) (budget : Option Nat) (maxSeek : Nat) :
+    (createUpload bs budget Guards.tree maxSeek).isSome = true := by
+  rw [show Guards.tree = Guards.all from rfl, createUpload_eq_ggufLayers]
+  exact ggufLayers_terminates bs budget Guards.all rfl maxSeek
+
+theorem create_upload_safe_tree (bs : Bytes) (B : Nat) (hB : 16 * bs.length ≤ B) (maxSeek : Nat) :
+    SafeL (createUpload bs (some B) Guards.tree maxSeek) := by
+  rw [show Guards.tree = Guards.all from rfl, createUpload_eq_ggufLayers]
+  exact ggufLayers_safe bs B hB maxSeek
+
+/-- `general.architecture` stored as a uint32 in an otherwise well-formed 53-byte file -/
+def wArchType : Bytes :=
+  [71, 71, 85, 70, 3, 0, 0, 0, 0, 0, 0, 0, 0, 0, 0, 0, 1, 0, 0, 0, 0, 0, 0, 0, 20, 0, 0, 0, 0, 0, 0, 0] ++
+  bytesOf "general.architecture" ++ [4, 0, 0, 0, 7, 0, 0, 0]
+
+/-- **Witness (upstream's accessors)**: `keyValue[T]` asserts the stored type unchecked; on this file create's
+    goroutine — outside the HTTP recovery middleware — panics and takes the server down (finding F11k; repaired by
+    `fix: treat a metadata key stored with another type as missing`). -/
+theorem witness_pinned_accessor_panics :
+    (createUpload wArchType (some budget) { Guards.all with accessorType := false }).map
+        (fun r => match r with | .error e => some e | .ok _ => none)
+      = some (some (.panic "interface-conversion")) := by decide
+
+/-- … the working tree's accessors take the default instead: one model layer -/
+example : (createUpload wArchType (some budget)).map (fun r => r.toOption.map (fun ls => ls.map (fun l => (l.size, l.media))))
+    = some (some [(60, 0)]) := by decide
+
 /-- a decode that starts at 0 and ends at 0 keeps the loop where it is: no fuel is ever enough -/
-theorem loop_stuck (bs : Bytes) (budget : Option Nat) (g : Guards) (maxSeek : Nat) (d : Decoded) (hpos : 0 < bs.length)
-    (hd : decodeFrom ⟨bs, 0⟩ 0 budget g = .ok d) (hend : d.endOffset = 0) :
+theorem loop_stuck (bs : Bytes) (budget : Option Nat) (g : Guards) (maxSeek : Nat) (d : Decoded) (m : Nat) (hpos : 0 < bs.length)
+    (hd : decodeFrom ⟨bs, 0⟩ 0 budget g = .ok d) (hend : d.endOffset = 0) (hm : mediaType g d.kvs = .ok m) :
     ∀ (fuel : Nat) (acc : List GLayer), ggufLayersLoop bs budget g maxSeek fuel 0 acc = none := by
   intro fuel
   induction fuel with
@@ -119,7 +150,7 @@ theorem loop_stuck (bs : Bytes) (budget : Option Nat) (g : Guards) (maxSeek : Na
     unfold ggufLayersLoop
     rw [if_pos hpos, List.drop_zero, hd]
     simp only [hend]
-    rw [if_neg (by omega)]
+    rw [if_neg (by omega), hm]
     exact ih _
 
 /-- **Witness (pinned decoder)**: on the 57-byte file of `witness_end_before_start` upstream's
@@ -127,21 +158,23 @@ theorem loop_stuck (bs : Bytes) (budget : Option Nat) (g : Guards) (maxSeek : Na
     (KNOWN_FINDINGS C10 F11j; repaired by `fix: reject GGUF tensors whose size does not fit an int64 offset`). -/
 theorem witness_pinned_create_never_answers :
     ggufLayers wNegSeek (some budget) Guards.pinned = none := by
-  have hd : ∃ d, decodeFrom ⟨wNegSeek, 0⟩ 0 (some budget) Guards.pinned = .ok d ∧ d.endOffset = 0 := by
-    cases h : decodeFrom ⟨wNegSeek, 0⟩ 0 (some budget) Guards.pinned with
-    | error e =>
-      have : (decode wNegSeek 0 (some budget) Guards.pinned).toOption.map (·.endOffset) = some 0 := witness_end_before_start
-      unfold decode at this; rw [h] at this; cases this
-    | ok d =>
-      refine ⟨d, rfl, ?_⟩
-      have : (decode wNegSeek 0 (some budget) Guards.pinned).toOption.map (·.endOffset) = some 0 := witness_end_before_start
-      unfold decode at this; rw [h] at this
-      simpa [Except.toOption] using this
-  obtain ⟨d, hd, hend⟩ := hd
-  unfold ggufLayers
-  simp only []
-  rw [if_neg (by decide)]
-  exact loop_stuck wNegSeek (some budget) Guards.pinned _ d (by decide) hd hend _ _
+  have key : (decode wNegSeek 0 (some budget) Guards.pinned).toOption.map
+      (fun d => (d.endOffset, (mediaType Guards.pinned d.kvs).toOption)) = some (0, some 0) := by decide
+  unfold decode at key
+  cases h : decodeFrom ⟨wNegSeek, 0⟩ 0 (some budget) Guards.pinned with
+  | error e => rw [h] at key; cases key
+  | ok d =>
+    rw [h] at key
+    simp only [Except.toOption, Option.map_some, Option.some.injEq, Prod.mk.injEq] at key
+    obtain ⟨hend, hmo⟩ := key
+    have hm : mediaType Guards.pinned d.kvs = .ok 0 := by
+      cases hmt : mediaType Guards.pinned d.kvs with
+      | error e => rw [hmt] at hmo; cases hmo
+      | ok m => rw [hmt] at hmo; simp only [Except.toOption, Option.some.injEq] at hmo; rw [hmo]
+    unfold ggufLayers
+    simp only []
+    rw [if_neg (by decide)]
+    exact loop_stuck wNegSeek (some budget) Guards.pinned _ d 0 (by decide) h hend hm _ _
 
 /-- … and the working tree's decoder rejects that file -/
 example : (ggufLayers wNegSeek (some budget)).map (fun r => match r with | .error e => some e | .ok _ => none)
